@@ -108,7 +108,10 @@ def parseGeom (tok : String) : Option (Geom V) :=
       let keeps ← parseBool keeps
       let n := QMat.ncols E
       some { gid := gid, p2f := mulVec E
-             f2p := fun f => match P with | some P => pure (mulVec P f) | none => throw .notImplemented
+             -- `_reshape_fun2par_input` refuses an array that does not have the function shape
+             f2p := fun f => match P with
+               | some P => if f.length = E.length then pure (mulVec P f) else throw .valueError
+               | none => throw .notImplemented
              identityType := ident
              grad := gr.map (fun r => lift2 r (fun g _ => vecMat n g E)), parDim := n
              p2fKeeps := keeps, f2pKeeps := keeps }
@@ -236,13 +239,21 @@ def fmtOutput : Output V → String
   | .one y => fmtVal y
   | .samples cols g => s!"smp {g} {fmtMat cols}"
 
-/-- `eqr` = two bits: evaluating `D == R` raises / evaluating `R == D` raises (left operand = the array's geometry) -/
+/-- `eqr` = two letters over T/F/I/K: the value of `D == R` and of `R == D` on the implementation
+    (True / False / raises IndexError / raises KeyError); the left operand is the array's geometry -/
 def withEqr (eqr : String) (D R : Geom V) : Option (Geom V × Geom V) :=
+  let upd (G : Geom V) (O : Geom V) (c : Char) : Option (Geom V) :=
+    let other := O.gid
+    if c = 'T' then some { G with eqTrue := [(other, O.maps)] }
+    else if c = 'F' then some G
+    else if c = 'I' then some { G with eqRaises := [(other, Err.indexError)] }
+    else if c = 'K' then some { G with eqRaises := [(other, Err.keyError)] }
+    else none
   match eqr.toList with
   | [a, b] => do
-      let a ← parseBool (String.singleton a)
-      let b ← parseBool (String.singleton b)
-      some ({ D with eqRaises := if b then [R.gid] else [] }, { R with eqRaises := if a then [D.gid] else [] })
+      let R' ← upd R D a      -- tag of D compared with R
+      let D' ← upd D R b      -- tag of R compared with D
+      some (D', R')
   | _ => none
 
 def step : List String → String
